@@ -5670,6 +5670,13 @@ class PyCdlib:
         self.isohybrid_mbr.new(efi, mac, part_entry, mbr_id, part_offset,
                                geometry_sectors, geometry_heads, part_type)
 
+        # The boot file addresses in the MBR are filled in while assigning
+        # extents, so that has to happen (again) now.
+        if self._always_consistent:
+            self._reshuffle_extents()
+        else:
+            self._needs_reshuffle = True
+
     def rm_isohybrid(self):
         # type: () -> None
         """
